@@ -111,11 +111,11 @@ def run(ck):
     quick = ck.tier == 'quick'
     ck.rules.append('case = (lattice segment, lattice query point) of RadialRange.tla, plain and under a similarity; path case = 2-5 model segments '
                     'with a common query point; non-trivial = curved segment, or a projection falling inside a line')
-    ck.assumptions += ['optimality between the witnesses t = j/8 (j/16 thorough) is not decided for curves; lines are exact']
+    ck.assumptions += ['optimality between the witnesses t = j/8 (j/10 thorough: the exact squared distances must stay below 2^31) is not decided for curves; lines are exact']
     mc = open(pm.__file__.rsplit('/', 2)[0] + '/spec/RadialRange_MC.cfg').read()
     ck.tlc('RadialRange', mc, need_actions=['Step'])
     ck.tlc('Roots', 'Roots_MC.cfg', need_actions=['Compare', 'Done'])
-    r = ck.tlc('RadialRange', 'SPECIFICATION Spec\nCONSTANTS W = %d\n Segs <- SegsA\n Pts <- PtsA\nCONSTRAINT AtStart\nINVARIANT Dump\n' % (8 if quick else 16),
+    r = ck.tlc('RadialRange', 'SPECIFICATION Spec\nCONSTANTS W = %d\n Segs <- SegsA\n Pts <- PtsA\nCONSTRAINT AtStart\nINVARIANT Dump\n' % (8 if quick else 10),
                workers=1, coverage=False)
     import cmath
     w = cmath.exp(1j * math.radians(30))
